@@ -172,6 +172,8 @@ func genC04(g *Gen) error {
 		{"shard.Close", "s.waitSnapshot()", "closeFiles: wait for the flush"},
 		{"shard.Close", "if err := s.immTables.Close(); err != nil {", "closeFiles: close files"},
 		{"MmsTables.acquire", "m.inCompact[name] = struct{}{}", "plan: acquire"},
+		{"MmsTables.getMmsPlan", "plans = m.mmsPlan(", "plan (level compaction): walks the file list"},
+		{"MmsTables.buildFullCompactPlan", "builder.Init(k, &v.closing, v.Len())", "plan (full compaction): walks the file list"},
 	}
 	var held [][2]string
 	for _, m := range marks {
